@@ -23,6 +23,10 @@ def run_models(ctx):
         lambda: solo(ctx, 'solo_hazardpointer', 'HazardPointerSolo', RM.hp_consts(MaxOps=1 if q else 2), 30, workers=8),
         lambda: solo(ctx, 'solo_harrismichael', 'HarrisMichaelSolo', HM.hm_consts(MaxOps=1 if q else 2), 40, workers=8),
         lambda: solo(ctx, 'solo_vyukovmap_reader', 'VyukovMapSolo', VM.vm_consts(MaxWrites=3), 30, workers=8),
+        lambda: solo(ctx, 'solo_ramalhete', 'RamalheteSolo', QM.rq_consts(Progs='<-ProgPP' if q else '<-ProgLost', NNodes=5), 40),
+        lambda: solo(ctx, 'solo_kirsch_kfifo', 'KirschKfifoSolo', QM.kf_consts(Progs='<-ProgP1' if q else '<-ProgLost', NSegs=5), 60),
+        lambda: solo(ctx, 'solo_kirsch_bounded', 'KirschBoundedSolo', QM.kb_consts(Progs='<-ProgPP' if q else '<-ProgLost'), 60),
+        lambda: solo(ctx, 'solo_nikolaev', 'NikolaevQueueSolo', QM.nq_consts(Progs='<-ProgPP', SetupOps=0), 120),
         # mechanism toggles: waiting instead of helping must be seen as a solo thread that does not finish
         lambda: solo(ctx, 'solo_toggle_seqlock_1slot', 'SeqlockSoloAll', P14.mc_consts(Slots=1, MaxWrites=1, MaxLoads=1), 16, expect='violation'),
         lambda: solo(ctx, 'solo_toggle_vyukov_strong', 'VyukovBoundedSoloAll', QM.vy_consts(MaxPush=2, MaxPop=1), 12, expect='violation'),
